@@ -190,6 +190,8 @@ var c11Streams = []string{
 	"\n", "\r\n", "\r", "", "data: x\n\n", "data: x\n\n\n", ": c\n", "data: x\n\n: bye\n", "data: x\n\nfoo: bar\n",
 	"id: 1\ndata: x", "data: x\n", "data: x", "retry: +5\n\n", "id: 1\n\n", "id: 1\n", "id: 1", "\xEF\xBB\xBF", "\xEF\xBB\xBFdata: x\n\n",
 	"data: a\n\ndata: b\n\n", "data: a\r\n\r\ndata: b\r\n\r", "event: e\ndata: d\nid: i\n\n", "retry: 0\n\n", "\n\n\n", ":\n:\n", "d",
+	// waits of hours (the attempt is followed by a cancellation at the wait: see hasRetryField below)
+	"retry: 7200000\n\n", "data: x\n\nretry: 99999999\ndata: y\n\n",
 }
 
 func genC11(rng *rand.Rand, n int, thorough bool, emit func(string)) {
